@@ -34,7 +34,7 @@ import (
 
 func main() {
 	vf.Main("C15", "exploration",
-		"case = start state (empty | git loose | git packed with peel lines | git packed+loose | packed --no-prune duplicates | re-headered/unsorted packed-refs) x generated sequence (6-40 ops) of go-git Set/CheckAndSet(right,wrong,absent old)/Remove/PackRefs/reopen and interleaved git pack-refs/update-ref over {HEAD, refs/heads/a, refs/heads/a/b, refs/heads/b, refs/tags/t, refs/tags/t2, refs/x/sym}; shape = start kind + sequence of (op kind, on-disk class of target); non-trivial = sequence touches a packed ref or packs; oracle = map model for go-git reads after every op, real git view of the same directory at start, after every PackRefs, at screen hits, at sampled positions and at the end",
+		"case = start state (empty | git loose | git packed with peel lines | git packed+loose | packed --no-prune duplicates | re-headered/unsorted packed-refs) x generated sequence (6-40 ops) of go-git Set/CheckAndSet(right,wrong,absent old)/Remove/PackRefs/reopen and interleaved git pack-refs/update-ref over {HEAD, refs/heads/a, refs/heads/a/b, refs/heads/b, refs/tags/t, refs/tags/t2, refs/x/sym} plus, in 35% of the histories, four more symbolic refs (refs/heads/sym1, refs/remotes/o/HEAD, refs/x/y/sym3, refs/zz/sym4) with few direct refs and PackRefs aimed at moments with one or two loose direct refs; shape = start kind + sequence of (op kind, on-disk class of target); non-trivial = sequence touches a packed ref or packs; oracle = map model for go-git reads after every op, real git view of the same directory at start, after 65% of the PackRefs calls, at screen hits, at sampled positions and at the end",
 		run)
 }
 
@@ -1189,7 +1189,8 @@ func (s *seq) run() {
 		if f == nil {
 			flags := post.screen(s.p)
 			sampled := s.r.Intn(100) < 8
-			if len(flags) > 0 || o.kind == "pack" || sampled || i == n-1 {
+			afterPack := o.kind == "pack" && s.r.Intn(100) < 65
+			if len(flags) > 0 || afterPack || sampled || i == n-1 {
 				if len(flags) > 0 {
 					c.Count("screen_hits", 1)
 				}
